@@ -561,7 +561,7 @@ impl Script {
     }
 
     async fn hostile_step(&mut self) {
-        let kind = kit::draw(16);
+        let kind = kit::draw(17);
         match kind {
             0 => {
                 // Garbage.
@@ -878,6 +878,40 @@ impl Script {
                     self.pump(Duration::from_micros(200)).await;
                 }
             }
+            15 => {
+                // A port batch that is never finished: many PortData frames without the last flag,
+                // each within credit (credits come back as the local receiver collects the requests).
+                let live: Vec<usize> = self.m.live().into_iter().filter(|&i| !self.m.ports[i].sent_finish && self.m.ports[i].credit_left >= 4).collect();
+                if live.is_empty() {
+                    return;
+                }
+                let i = kit::pick(&live);
+                self.taint(i);
+                let port = self.m.ports[i].a_port;
+                let n = kit::pick(&[6u32, 12, 40]);
+                self.hostile(format!("unfinished port batch: {n} PortData frames without the last flag on port {port}"));
+                kit::fault_fired("endless_port_batch");
+                for k in 0..n {
+                    // Wait for credit like an honest sender would.
+                    for _ in 0..20 {
+                        if self.m.ports[i].credit_left >= 4 {
+                            break;
+                        }
+                        self.pump(Duration::from_millis(5)).await;
+                    }
+                    if self.m.ports[i].credit_left < 4 || self.peer.closed || self.send_dead {
+                        break;
+                    }
+                    self.m.next_pport += 1;
+                    let p = self.m.next_pport;
+                    self.m.my_reqs.insert(p, true);
+                    if !self.frame(&Frame::PortData { port, first: k == 0, last: false, wait: true, ports: vec![p], ids: None }).await {
+                        break;
+                    }
+                    self.m.ports[i].credit_left -= 4;
+                    self.marks.push((self.ctl.sent(1), i, 4));
+                }
+            }
             _ => {
                 // Empty batch / zero-length chunks within credit: legal but unusual.
                 let live: Vec<usize> = self.m.live().into_iter().filter(|&i| !self.m.ports[i].sent_finish && self.m.ports[i].credit_left > 4).collect();
@@ -1177,7 +1211,8 @@ async fn run(hostile_permille: u32) {
         }
         // Unanswered requests of the peer: what the listener actor has not taken must fit the two queues.
         let unanswered = s.m.my_reqs.len();
-        let bound = 2 * (cfg_a.connect_queue as usize + 1) + bk.held_requests + cfg_a.receive_buffer as usize / 4 * s.m.ports.len();
+        // Per port: requests waiting in its receive queue plus one batch being assembled (max_received_ports).
+        let bound = 2 * (cfg_a.connect_queue as usize + 1) + bk.held_requests + (cfg_a.receive_buffer as usize / 4 + cfg_a.max_received_ports + 1) * s.m.ports.len();
         if unanswered > bound {
             viol(
                 "request-flood-accepted",
@@ -1722,7 +1757,7 @@ pub fn checks() -> Vec<Check> {
         quick: (600_000, 50),
         thorough: (25_000_000, 600),
         rule: "each evaluation is one seeded run: a real endpoint (tiny drawn configuration, listener actor drawing accept/reject/drop/hold, client actor with 0-2 connects, one actor per port: consuming, stalled, receiver dropped, both halves dropped, plus 0-2 sends) against a scripted peer with drawn Hello \
-(version 2/3/4/255, chunk size and receive buffer 4..u32::MAX, connect queue 1..65535) playing 4-40 steps: valid ones (open, complete messages within credit and chunk size, answers, credit returns, finish/close, ping) and - after a valid prefix - hostile ones from 16 kinds \
+(version 2/3/4/255, chunk size and receive buffer 4..u32::MAX, connect queue 1..65535) playing 4-40 steps: valid ones (open, complete messages within credit and chunk size, answers, credit returns, finish/close, ping) and - after a valid prefix - hostile ones from 17 kinds \
 (garbage, mutated or replayed frames, Data without payload, Data for unknown/freed/connecting/finished ports, chunk overrun, credit overrun, huge and overflowing credits, unsolicited or duplicate answers, duplicate requests, request floods, port-batch bombs, duplicate finishes, second Hello/Reset/ClientFinish/ListenerFinish, Goodbye followed by traffic, odd-but-legal frames); \
 non-trivial = at least one hostile frame was sent; distinct = distinct (plan hash, poll-order hash)",
         assumptions: vec![
@@ -1753,6 +1788,7 @@ non-trivial = at least one hostile frame was sent; distinct = distinct (plan has
             "connection_level_frame",
             "goodbye",
             "credit_overflow_steps",
+            "endless_port_batch",
             "peer_valid_message",
             "io_oversize_length_prefix",
             "io_frame_cut_short",
